@@ -1,4 +1,5 @@
 import JunoModel.C04.ProofsBC
+import JunoModel.C04.ProofsBulk
 /-!
 C04 — reverting the head exactly undoes a block; forks converge.
 
@@ -497,8 +498,16 @@ theorem declaration_without_definition_refused :
     failsWith (fstoreAll newCfg Node.init [blk 0 10 0 { Diff.empty with declV1 := [(0xd1, 0xe1)] }]) .casm = true := by
   decide
 
-/-- the closed-form base image of the harness is what storing the blocks one by one gives (here a chain
-that completes a window of 4 and one that does not) -/
+/-- The base image of the harness' window-boundary scenarios — the driver's closed form `bulkNode` of a chain
+of blocks without transactions, events and state changes, for ANY list of distinct hashes — is the node
+that stores that chain block by block, and it is reachable: every theorem above applies to the nodes those
+scenarios start from. (On a tree without 702b167 only below the first window end.) -/
+theorem base_image_is_reachable (cfg : Cfg) (hc : cfg.asFound) (hdrop : cfg.dropReopenedWindow = true) (v : Nat)
+    (hv : v < 3) (hs : List Nat) (hn : hs.Nodup) :
+    storeAll cfg Node.init (plainChain v 0 0 hs) = .ok (bulkNode cfg v hs) ∧ Good cfg (bulkNode cfg v hs) :=
+  bulk_good cfg hc.1 (Or.inl hdrop) v hv hs hn
+
+/-- evaluated instances of the same: a chain that completes a window of 4 and one that does not -/
 example : sameNode (storeAll legacyCfg Node.init (plainChain 1 0 0 [30, 11, 25, 13, 9, 40, 7, 8, 50]))
     (.ok (bulkNode legacyCfg 1 [30, 11, 25, 13, 9, 40, 7, 8, 50])) = true := by decide
 example : sameNode (storeAll newCfg Node.init (plainChain 1 0 0 [30, 11, 25])) (.ok (bulkNode newCfg 1 [30, 11, 25])) = true := by
